@@ -70,7 +70,7 @@ def run (j : Json) : R Json := do
     | "close" =>
       let tasks ← listOf nat (← nth l 1)
       let st0 := st
-      let deps : TaskId → List TaskId := fun t => match lookup st0.behaviour t with
+      let deps : Nat → List Nat := fun t => match lookup st0.behaviour t with
         | some (.use r) => r.injected
         | some (.run _ r) => r.deps ++ r.softDeps
         | _ => []
